@@ -30,6 +30,9 @@ def gen_original(g, name, prefix, others):
         if i == 0:
             acts.append({"k": "raw", "ctx": "enter", "text": "put %d into counter of framer" % g.randint(0, 2)})
         acts.append({"k": "raw", "ctx": g.choice(["recur", "enter"]), "text": "inc counter of framer with %d" % g.choice([1, 1, 2])})
+        if i > 0 and g.random() < 0.4:      # entry need on the clone's own relative data (or on absolute data)
+            acts.append({"k": "raw", "ctx": None, "text": "let me if %s" % g.choice(["counter of framer >= %d" % g.randint(1, 4), "counter of framer <= %d" % g.randint(2, 6),
+                                                                                    ".sim.x1 >= %d" % g.randint(0, 2), "counter of framer != %d" % g.randint(1, 4)])})
         if others and i == 0 and g.random() < 0.6:
             acts.append({"k": "clone", "orig": g.choice(others), "as": "mine", "needs": None})
         if i < n - 1:
@@ -128,7 +131,7 @@ class C12(Check):
     design_ref = "§6 C12"
     rule = ("generated programs whose main framer's frames clone one or two moot originals several times as insular ('as mine') and "
             "named clones (plain auxiliaries; the builder refuses clones as conditional auxiliaries), the second original itself cloning the first (clones inside "
-            "clones), originals using framer-relative data ('counter of framer') to drive their transitions and 'done'; the "
+            "clones), originals using framer-relative data ('counter of framer') to drive their transitions, entry needs ('let me if counter of framer ...') and 'done'; the "
             "clone program and its textual-copy twin are run with the same environment history and compared: recorder events "
             "(tag, frame, context, tick) and the main framer's state after every run equal up to the first-appearance bijection "
             "of framer names; relative shares of distinct clones distinct and finally equal to the copies'; non-trivial = at "
@@ -136,7 +139,7 @@ class C12(Check):
     components = dict(COMPONENTS)
     assumptions = ["rear / raze at run time are not exercised by this check (only build-time clones: insular, named, nested, conditional)",
                    "program B (textual copies as ordinary auxiliaries) is the statement's 'what its original would produce alone'"]
-    required_probes = ["insular", "named", "nested", "two-clones-of-one-original"]
+    required_probes = ["insular", "named", "nested", "two-clones-of-one-original", "relative-entry-need"]
     quick_runs = 3000
     thorough_runs = 150000
     shrink_fields = []
@@ -168,6 +171,8 @@ class C12(Check):
                 out.probe(probe)
         if any(a["k"] == "clone" for o in plan["origs"] for f in o["frames"] for a in f["acts"]):
             out.probe("nested")
+        if "let me if counter of framer" in text:
+            out.probe("relative-entry-need")
         if any(a["k"] == "clone" and a["needs"] for f in plan["main"]["frames"] for a in f["acts"]):
             out.probe("conditional-clone")
 
